@@ -3,6 +3,8 @@
 package hx
 
 import (
+	"syscall"
+	"strconv"
 	"crypto/sha1"
 	"encoding/hex"
 	"encoding/json"
@@ -189,6 +191,10 @@ func Flush() {
 	if path == "" {
 		return
 	}
+	if os.Getenv("VERIF_FUZZ") != "" {
+		// a native fuzz campaign runs the target in several worker processes; each keeps its own file
+		path = fmt.Sprintf("%s.%d", path, os.Getpid())
+	}
 	mu.Lock()
 	defer mu.Unlock()
 	var all []*Stats
@@ -258,6 +264,9 @@ func writeReplay(id string, c any, r *Result) string {
 	rf := ReplayFile{Property: id, Sig: r.Sig, Message: r.Viol, Case: b}
 	out, _ := json.MarshalIndent(rf, "", " ")
 	name := fmt.Sprintf("%s-shard%s.json", id, os.Getenv("VERIF_SHARD"))
+	if os.Getenv("VERIF_FUZZ") != "" {
+		name = fmt.Sprintf("%s-fuzz-%d.json", id, os.Getpid())
+	}
 	p := filepath.Join(replayDir(), name)
 	_ = os.WriteFile(p, out, 0o644)
 	return p
@@ -311,6 +320,42 @@ func RunProp(t *testing.T, id string) {
 			rt.Fatalf("VIOLATION %s [%s]: %s", id, r.Sig, r.Viol)
 		}
 	})
+}
+
+var lastFuzzFlush time.Time
+
+// RunFuzz is the body of a native fuzz target: execute one decoded case, count it, and on a violation
+// write the JSON replay (the engine minimises by calling the target again; the last replay written is
+// the smallest) and fail the test. Statistics are flushed every few seconds because workers are stopped
+// by the coordinator without notice.
+func RunFuzz(t *testing.T, id string, c any) {
+	sp := registry[id]
+	if sp.Journal {
+		journal(id, c)
+	}
+	r := execSteady(sp, c)
+	if sp.Journal {
+		clearJournal()
+	}
+	mu.Lock()
+	wasFailed := failed[id]
+	mu.Unlock()
+	if !wasFailed {
+		record(id, c, &r)
+	}
+	if r.Viol != "" {
+		p := writeReplay(id, c, &r)
+		mu.Lock()
+		failed[id] = true
+		stats(id).Violations = []ViolRec{{Sig: r.Sig, Msg: r.Viol, Replay: p}}
+		mu.Unlock()
+		Flush()
+		t.Fatalf("VIOLATION %s [%s]: %s", id, r.Sig, r.Viol)
+	}
+	if time.Since(lastFuzzFlush) > 3*time.Second {
+		lastFuzzFlush = time.Now()
+		Flush()
+	}
 }
 
 // ReportViolation records a violation found outside rapid.Check (no shrinking) and fails the test.
@@ -482,6 +527,16 @@ func WithTimeout(d time.Duration, f func()) (finished bool) {
 func Main(m *testing.M) {
 	// rapid replays testdata/rapid first; never wanted here.
 	_ = os.RemoveAll("testdata/rapid")
+	// a native fuzz campaign: the coordinator maps shared memory for every worker and must not run under
+	// the address-space cap; each worker puts itself under it
+	if kb, err := strconv.ParseUint(os.Getenv("VERIF_WORKER_MEM_KB"), 10, 64); err == nil && kb > 0 {
+		for _, a := range os.Args {
+			if strings.HasPrefix(a, "-test.fuzzworker") {
+				lim := syscall.Rlimit{Cur: kb * 1024, Max: kb * 1024}
+				_ = syscall.Setrlimit(syscall.RLIMIT_AS, &lim)
+			}
+		}
+	}
 	code := m.Run()
 	Flush()
 	os.Exit(code)
